@@ -16,6 +16,7 @@ import Fir.Proofs.TwoPassLemmas
 import Fir.Proofs.IdealFilterLemmas
 import Fir.Proofs.FloatLemmas
 import Fir.Proofs.IeeeLemmas
+import Fir.Proofs.SimdPassIntLemmas
 
 namespace Fir.C10
 open Fir
@@ -263,5 +264,39 @@ theorem uniform_float_ieee (v : ℚ) (k : ℕ → ℚ) (t : Shape) :
     |t.eval (flP 53) (fun _ => v) k - v| ≤ gam (1 / 2 ^ 53) t.depth * (|v| * t.kAbs k) + |v| * |t.kSum k - 1| :=
   uniform_float (flP 53) (1 / 2 ^ 53) (by positivity) (flP_relErr 53 (by norm_num)) v k t
 end IeeeInstances
+
+/-! ### the exactness theorems reach the SIMD back-ends
+
+    The lane-accurate models of the SSE4.1 horizontal kernels (`Fir.SimdU16x4.pixel` for RGBA16, `Fir.SimdU8x4.pixel` for RGBA8; proved
+    equal to `passInt` in Fir.C02, executed against the real kernels on every run) give the very value of a uniform row, under the same
+    premise on the quantised coefficients as the portable kernel. -/
+
+theorem uniform_exact_u16x4_sse4 (ks : List Int) (p : Nat) (v : Int) (row : List Int) (start c : Nat) (hc : c < 4)
+    (hp1 : 1 ≤ p) (hp : p ≤ 46) (hv0 : 0 ≤ v) (hv : v ≤ 65535)
+    (hk : ∀ k ∈ ks, -2147483648 ≤ k ∧ k ≤ 2147483647) (hrow : ∀ i, row.getD i 0 = v) (hq : QuantOK ks p v) :
+    (Fir.SimdU16x4.pixel p row start ks).getD c 0 = v := by
+  rw [Fir.Proofs.PassInt.u16x4 p row start ks c hc hk (fun i => by rw [hrow i]; exact ⟨hv0, hv⟩)]
+  have : ((List.range ks.length).map fun i => row.getD (4 * (start + i) + c) 0) = List.replicate ks.length v := by
+    apply List.ext_getElem
+    · simp
+    · intro i h1 h2
+      simp only [List.getElem_map, List.getElem_range, List.getElem_replicate]
+      exact hrow _
+  rw [this]
+  exact Fir.Proofs.uniform_exact_u16 ks p v hp1 hp hv0 hv hq.1 hq.2
+
+theorem uniform_exact_u8x4_sse4 (ks : List Int) (p : Nat) (v : Int) (row : List Int) (start c : Nat) (hc : c < 4)
+    (hp1 : 1 ≤ p) (hp : p ≤ 22) (hv0 : 0 ≤ v) (hv : v ≤ 255)
+    (hk : ∀ k ∈ ks, -32768 ≤ k ∧ k ≤ 32767) (hrow : ∀ i, row.getD i 0 = v) (hq : QuantOK ks p v) :
+    (Fir.SimdU8x4.pixel p row start ks).getD c 0 = v := by
+  rw [Fir.Proofs.u8x4_sse4_pixel_eq_passInt p (by omega) row start ks c hc hk (fun i => by rw [hrow i]; exact ⟨hv0, hv⟩)]
+  have : ((List.range ks.length).map fun i => row.getD (4 * (start + i) + c) 0) = List.replicate ks.length v := by
+    apply List.ext_getElem
+    · simp
+    · intro i h1 h2
+      simp only [List.getElem_map, List.getElem_range, List.getElem_replicate]
+      exact hrow _
+  rw [this]
+  exact Fir.Proofs.uniform_exact_u8 ks p v hp1 hp hv0 hv hq.1 hq.2
 
 end Fir.C10
